@@ -76,10 +76,11 @@ impl PatchHeader {
 
     /// Set the author of the patch.
     pub fn set_author(&mut self, author: &str) {
-        if self.0.contains_key("From") {
-            self.0.set("From", author);
-        } else {
+        // author() prefers Author over From: write the field it reads
+        if self.0.contains_key("Author") || !self.0.contains_key("From") {
             self.0.set("Author", author);
+        } else {
+            self.0.set("From", author);
         }
     }
 
